@@ -24,6 +24,10 @@ Clause → theorem:
 * the cancellation corner is bounded .................... `C04_cancel_one_late_shot`
 * `Time.Sub` saturation ................................. `C04_sub_saturation`
 * the documentation page promises the source's constants  `C04_doc_is_source`
+* round 3: "a timer does not fire early" reduced to timers armed on an empty channel: `C04_timer_channel_empty_at_arm`,
+  `C04_no_early_fresh_timer`, `C04_timer_is_source` (`C04_no_early_any_ctx_statement` / `…_counterexample`: a Waiter re-used with
+  another context); whole-run `Time.Sub` saturation `C04_sub_saturation_run`; run length of a pool `C04_pool_run_bounded`
+  (`C04_run_bounded_of_drawn`); the phout line of a discarded token `C04_discard_sample_phout`; `C04_cached_reading_is_an_optimisation`
 
 The model is tied to the current source by `Pandora.Bridge.Waiter` (regenerated `Wait`, `IsSlowDown`, `IsFinished`, constants, the
 whole pass of the loop of `instance.Run`, the cli default and its wiring) and by the real-time correspondence run (harness/cmd/c04).
@@ -34,6 +38,7 @@ whole pass of the loop of `instance.Run`, the cli default and its wiring) and by
 import Pandora.Proofs.C04
 import Pandora.Proofs.C04Pool
 import Pandora.Proofs.C04Sim
+import Pandora.Proofs.C04Ext
 import Pandora.Bridge.Waiter
 
 namespace Pandora.Props.C04
@@ -785,5 +790,214 @@ def cancelDemo : List Iter :=
     { finished := true, env := { pick := 3300000000, now := 3300000000, arm := 3300000000, ret := 3300000000 } } ]
 example : ClockOK Waiter.init cancelDemo ∧ ReadAfterPick cancelDemo ∧ CtxMono cancelDemo ∧
     (runLoop .fresh true Waiter.init cancelDemo).1.map Ev.isShoot = [true, true, true] := by decide
+
+end Pandora.Props.C04
+
+namespace Pandora.Props.C04
+open Pandora.Go.C04 Pandora.Model.C04 Pandora.Proofs.C04
+
+/-! ### round 3: the timer of a Waiter -/
+
+/-- The timer of a Waiter never holds a stale tick when it is armed: for every history in which a done context stays done
+(`CtxSticky`: `instance.Run` and `startInstances` pass one context to every call) and every waiter whose timer channel is empty at the
+start (a new Waiter has no timer at all), every call of `Wait` that arms the timer (paths `timer`, `timerCancel`) finds the
+channel empty — either variant, any tokens, any clock. So the only tick `<-w.timer.C` can receive is the one of the current arming. -/
+theorem C04_timer_channel_empty_at_arm (v : Variant) (w : Waiter) (tm : TimerSt) (h : List Iter) (hs : CtxSticky h)
+    (hf : tm.stale = false) :
+    ∀ p ∈ timerTrace v w tm h, (p.2.path = .timer ∨ p.2.path = .timerCancel) → p.1.stale = false :=
+  timerTrace_not_stale v w tm h hs (Or.inl hf)
+
+/-- "No request is fired before its scheduled time" with the timer hypothesis reduced to timers armed on an EMPTY channel
+(`ClockOKT`: nothing is assumed about a `<-w.timer.C` whose channel may hold an older tick): the lifecycle of `w.timer` in `Wait`
+(lazily created, re-armed by `Reset`, received only in the final `select`) guarantees that such a channel never occurs. -/
+theorem C04_no_early_fresh_timer (v : Variant) (d : Bool) (w : Waiter) (tm : TimerSt) (h : List Iter) (hs : CtxSticky h)
+    (hf : tm.stale = false) (hc : ClockOKT v w tm h) :
+    ∀ ev ∈ (runLoop v d w h).1, ∃ next, ev.iter.env.tok = some next ∧ next ≤ ev.iter.env.ret :=
+  C04_no_early v d w h (clockOKT_clockOK v w tm h hs hf hc)
+
+/-- the same WITHOUT the hypothesis that a done context stays done -/
+def C04_no_early_any_ctx_statement : Prop :=
+  ∀ (v : Variant) (d : Bool) (w : Waiter) (tm : TimerSt) (h : List Iter), tm.stale = false → ClockOKT v w tm h →
+    ∀ ev ∈ (runLoop v d w h).1, ∃ next, ev.iter.env.tok = some next ∧ next ≤ ev.iter.env.ret
+
+/-- It is false: a Waiter whose sleep was cancelled and that is then used with ANOTHER, live context re-arms its timer with `Reset`
+while the tick of the cancelled sleep may sit in the channel (`go 1.21` timers), and the next sleep ends at once: the token scheduled
+at 3 s is released at 2 s. Nothing in /repo does that (`CtxSticky` holds of `instance.Run` and `startInstances`); it is the reason
+why the hypothesis is there, and why a timer shared between waiters breaks the property. -/
+theorem C04_no_early_any_ctx_counterexample : ¬ C04_no_early_any_ctx_statement := by
+  intro hs
+  let i1 : Iter := { env := { tok := some 1000000000, pick := 0, now := 0, arm := 0, timerWins := false, ret := 500000000 } }
+  let i2 : Iter := { env := { tok := some 3000000000, pick := 2000000000, now := 2000000000, arm := 2000000000, timerWins := true,
+                              ret := 2000000000 } }
+  have h := hs .fresh true Waiter.init {} [i1, i2] (by decide) (by decide) (Ev.shoot i2) (by decide)
+  revert h
+  decide
+
+/-- `Wait` with the timer (`waitT`) is `waitV` with the timer state threaded through, and the regenerated `WaitT` — the current
+source with its three statements about `w.timer` (lazy `NewTimer`, `Reset`, the receive in the final `select`) — is `waitT`;
+`NewWaiter` sets nothing but the schedule (no timer, zero `lastNow`, zero overdue) and nothing else in the package touches the timer. -/
+theorem C04_timer_is_source (w : Waiter) (tm : TimerSt) (e : Env) :
+    Gen.Waiter.WaitT w tm e = waitT .fresh w tm e ∧
+    waitT .fresh w tm e = ((waitV .fresh w e).w, timerAfter tm (waitV .fresh w e), (waitV .fresh w e).ok) ∧
+    Gen.Waiter.newWaiterFields = ["sched"] ∧ Gen.Waiter.timerOtherUses = 0 ∧
+    (({} : TimerSt).stale = false) :=
+  ⟨Bridge.Waiter.WaitT_eq w tm e, waitT_eq .fresh w tm e, Bridge.Waiter.newWaiter_wiring.1, Bridge.Waiter.newWaiter_wiring.2, rfl⟩
+
+/-! ### round 3: `Time.Sub` saturation, the whole run -/
+
+/-- The WHOLE loop of `instance.Run` computed with Go's saturating `Time.Sub` is the loop computed with exact subtraction — actions
+and exit, both variants, discard_overflow on or off — for every history whose clock readings and token times lie in a window of at
+most 2^63-1 ns (292 years) that begins after year 1 (the waiter's cached reading being the zero time or inside the window). -/
+theorem C04_sub_saturation_run (v : Variant) (d : Bool) (lo hi : Int) (w : Waiter) (h : List Iter)
+    (hz : zeroTime < lo) (hspan : hi - lo ≤ maxDuration)
+    (hw : w.lastNow = zeroTime ∨ (lo ≤ w.lastNow ∧ w.lastNow ≤ hi))
+    (hh : ∀ it ∈ h, lo ≤ it.env.now ∧ it.env.now ≤ hi ∧ ∀ next ∈ it.env.tok, lo ≤ next ∧ next ≤ hi) :
+    runLoopWith satSub v d w h = runLoop v d w h := by
+  induction h generalizing w with
+  | nil => simp [runLoopWith, runLoop]
+  | cons it rest ih =>
+    obtain ⟨h1, h2, h3⟩ := hh it (by simp)
+    obtain ⟨e1, _, e3⟩ := C04_sub_saturation v lo hi w it.env ⟨hz, hspan, hw, h1, h2, h3⟩
+    have hrest := ih (waitV v w it.env).w e3 (fun x hx => hh x (by simp [hx]))
+    unfold runLoopWith runLoop
+    simp only [e1, hrest]
+
+/-! ### round 3: the length of a run of a POOL -/
+
+/-- `C04_run_bounded` with the hypotheses asked only of the passes in which a token was drawn and waited for -/
+theorem C04_run_bounded_of_drawn (w : Waiter) (h : List Iter) (start D R ε : Int) (hc : ClockOK w h) (hp : ReadAfterPick h)
+    (htoks : ∀ it ∈ drawn .fresh w h, ∀ next, it.env.tok = some next → next ≤ start + D)
+    (hresp : ∀ it ∈ drawn .fresh w h, it.dur ≤ R)
+    (hlag : ∀ it ∈ drawn .fresh w h, ∀ next, it.env.tok = some next → it.env.ret ≤ max it.env.pick next + ε)
+    (hctx : ∀ it ∈ drawn .fresh w h, it.ctxDoneSlow = false) :
+    ∀ it, Ev.shoot it ∈ (runLoop .fresh true w h).1 → it.env.ret + it.dur < start + D + maxOverdue + ε + R := by
+  intro it hev
+  have hmem : it ∈ drawn .fresh w h := by
+    rw [← C04_every_drawn_token_acted .fresh true w h, List.mem_map]
+    exact ⟨_, hev, rfl⟩
+  obtain ⟨next, htok, _⟩ := C04_no_early .fresh true w h hc _ hev
+  simp only [Ev.iter] at htok
+  have hlate := C04_discarded_if_late w h hc hp it hev (hctx it hmem) next htok
+  have h1 := htoks it hmem next htok
+  have h2 := hresp it hmem
+  have h3 := hlag it hmem next htok
+  have : max it.env.pick next < start + D + maxOverdue := by
+    rcases Int.le_total it.env.pick next with hle | hle
+    · rw [Int.max_eq_right hle]; unfold maxOverdue; omega
+    · rw [Int.max_eq_left hle]; omega
+  omega
+
+/-- The run length for ANY number of instances on one shared schedule (REPAIRED `Wait`, discard_overflow on, no cancellation): if
+the tokens of the PROFILE lie in `[_, start + D]` — a hypothesis about the profile, not about what the instances drew: every token an
+instance gets is a token of the profile (`C04_pool_conservation`) — then every shot of every instance ends before
+`start + D + 2 s + ε + R`, under the clock hypotheses for that instance's own passes, whatever the interleaving and however slow
+the target is. -/
+theorem C04_pool_run_bounded (toks : List Int) (steps : List PStep) (hs : ∀ s ∈ steps, Calm s) (i : Nat) (start D R ε : Int)
+    (htoks : ∀ t ∈ toks, t ≤ start + D)
+    (hc : ClockOK Waiter.init ((prun (PState.init toks) steps).hist i))
+    (hp : ReadAfterPick ((prun (PState.init toks) steps).hist i))
+    (hresp : ∀ it ∈ (prun (PState.init toks) steps).hist i, it.dur ≤ R)
+    (hlag : ∀ it ∈ (prun (PState.init toks) steps).hist i, ∀ next, it.env.tok = some next →
+      it.env.ret ≤ max it.env.pick next + ε)
+    (hctx : ∀ it ∈ (prun (PState.init toks) steps).hist i, it.ctxDoneSlow = false) :
+    ∀ it, Ev.shoot it ∈ poolEvents .fresh true toks steps i → it.env.ret + it.dur < start + D + maxOverdue + ε + R := by
+  have hsub := drawn_mem .fresh Waiter.init ((prun (PState.init toks) steps).hist i)
+  refine C04_run_bounded_of_drawn Waiter.init _ start D R ε hc hp (fun it hit next htok => ?_)
+    (fun it hit => hresp it (hsub it hit)) (fun it hit => hlag it (hsub it hit)) (fun it hit => hctx it (hsub it hit))
+  apply htoks
+  apply ownToks_subset toks steps i
+  rw [← (prun_inv .fresh _ steps (PInv.init .fresh toks) hs).drawnEq i, List.mem_map]
+  exact ⟨it, hit, by simp [Iter.tok, htok]⟩
+
+/-! ### round 3: the discarded sample in a phout line -/
+
+/-- What a consumer of the phout file sees of a discarded token: the line has `2 + fieldsNum` = 12 TAB-separated columns; column 1
+is the tag `discarded` (followed by `#<id>` when ids are printed), column `2 + keyErrno` = 10 is `777`, and every other numeric
+column — the protocol code in the last one included — is `0`: not a response of the target. The indices are the REGENERATED
+`keyErrno`, `keyProtoCode`, `fieldsNum` of the `iota` block; `SetUserNet` stores under `keyErrno`, `set` is the plain store and
+`appendPhout` prints time stamp, tags, `#id`, then the fields in index order. -/
+theorem C04_discard_sample_phout (ts : String) (id : Bool) :
+    (phoutColumns ts discardedPhSample id).length = 12 ∧
+    (phoutColumns ts discardedPhSample false)[1]? = some "discarded" ∧
+    (phoutColumns ts discardedPhSample true)[1]? = some "discarded#0" ∧
+    (phoutColumns ts discardedPhSample id)[phoutNetColumn]? = some "777" ∧ phoutNetColumn = 10 ∧
+    (∀ k, 2 ≤ k → k < 12 → k ≠ phoutNetColumn → (phoutColumns ts discardedPhSample id)[k]? = some "0") ∧
+    discardedPhSample.tags = discardedShootSample.tags ∧ discardedPhSample.fields[phKeyErrno]? = some discardedShootSample.net ∧
+    Gen.Waiter.phKeyErrno = phKeyErrno ∧ Gen.Waiter.phKeyProtoCode = phKeyProtoCode ∧ Gen.Waiter.phFieldsNum = phFieldsNum ∧
+    Gen.Waiter.phSetUserNetKey = "keyErrno" ∧ Gen.Waiter.phSetBody = "s.fields[k] = v" ∧
+    Gen.Waiter.phoutLayout = ["timestamp", "TAB", "tags", "#id", "TAB+field*"] := by
+  obtain ⟨g1, g2, g3, g4, g5, g6⟩ := Bridge.Waiter.phout_wiring
+  have hcols : ∀ b : Bool, phoutColumns ts discardedPhSample b =
+      ts :: (if b then "discarded#0" else "discarded") :: ["0", "0", "0", "0", "0", "0", "0", "0", "777", "0"] := by
+    intro b; cases b <;> rfl
+  refine ⟨by rw [hcols]; rfl, by rw [hcols]; rfl, by rw [hcols]; rfl, by rw [hcols]; rfl, rfl, ?_, rfl, by decide,
+    g1, g2, g3, g4, g5, g6⟩
+  intro k h2 h12 hne
+  have hk : k = 2 ∨ k = 3 ∨ k = 4 ∨ k = 5 ∨ k = 6 ∨ k = 7 ∨ k = 8 ∨ k = 9 ∨ k = 11 := by
+    have : phoutNetColumn = 10 := rfl
+    omega
+  rw [hcols]
+  rcases hk with rfl | rfl | rfl | rfl | rfl | rfl | rfl | rfl | rfl <;> rfl
+
+/-! ### round 3: the cached clock reading is only an optimisation -/
+
+/-- REPAIRED `Wait`: the cached reading `lastNow` decides nothing. For two waiters whose cached readings are both not ahead of the
+clock, the same call (context alive, a token handed out) returns the same answer, records the same overdue and leaves the same
+cached reading — the one taken in this call — behind: every decision of `runLoop .fresh` is a function of the token times and the
+clock readings alone, the cache only selects the path. The code as found does not have this property (`waitOld` records
+`lastNow - next` on the `cachedNow` path: `C04_discarded_if_late_counterexample_old`). -/
+theorem C04_cached_reading_is_an_optimisation (w1 w2 : Waiter) (e : Env) (h1 : w1.lastNow ≤ e.now) (h2 : w2.lastNow ≤ e.now)
+    (htok : e.ctxDone = false → e.tok ≠ none) :
+    (waitV .fresh w1 e).ok = (waitV .fresh w2 e).ok ∧ (waitV .fresh w1 e).w.overdue = (waitV .fresh w2 e).w.overdue ∧
+    (e.ctxDone = false → (waitV .fresh w1 e).w.lastNow = e.now ∧ (waitV .fresh w2 e).w.lastNow = e.now) := by
+  unfold waitV
+  by_cases hc : e.ctxDone = true
+  · simp [hc]
+  · cases ht : e.tok with
+    | none => exact absurd ht (htok (by simpa using hc))
+    | some next =>
+      simp only [hc, timeSub]
+      by_cases a1 : next - w1.lastNow ≤ 0 <;> by_cases a2 : next - w2.lastNow ≤ 0 <;> by_cases a3 : next - e.now ≤ 0 <;>
+        by_cases a4 : e.timerWins = true <;> simp [a1, a2, a3, a4] <;> omega
+
+/-! ### non-vacuity, round 3 -/
+
+/-- a run that is cancelled while the instance sleeps on its timer: the sleep is left through `ctx.Done()`, the next call of `Wait`
+(if the loop got that far) finds the context done -/
+def stickyDemo : List Iter :=
+  [ { env := { tok := some 0, pick := 0, now := 0, arm := 0, ret := 0 }, dur := 100000000 },
+    { env := { tok := some 1000000000, pick := 100001000, now := 100002000, arm := 100003000, ret := 1000004000 }, dur := 0 },
+    { env := { tok := some 2000000000, pick := 1000005000, now := 1000006000, arm := 1000007000, timerWins := false, ret := 1500000000 } },
+    { env := { ctxDone := true, pick := 1500001000, now := 1500001000, arm := 1500001000, ret := 1500001000 } } ]
+
+example : CtxSticky stickyDemo ∧ ({} : TimerSt).stale = false ∧ ClockOKT .fresh Waiter.init {} stickyDemo ∧
+    (timerTrace .fresh Waiter.init {} stickyDemo).map (fun p => (p.1.stale, p.2.path)) =
+      [(false, .freshNow), (false, .timer), (false, .timerCancel), (true, .ctxDone)] ∧
+    ((runLoop .fresh true Waiter.init stickyDemo).1.map Ev.isShoot) = [true, true] := by decide
+
+/-- `C04_sub_saturation_run`: `demo` shifted into 2026 lies in a window of one day; its first call really saturates -/
+def demo2026 : List Iter := demo.map fun it =>
+  { it with env := { it.env with tok := it.env.tok.map (· + 1790000000000000000), pick := it.env.pick + 1790000000000000000,
+                                 now := it.env.now + 1790000000000000000, arm := it.env.arm + 1790000000000000000,
+                                 ret := it.env.ret + 1790000000000000000 } }
+example : zeroTime < 1790000000000000000 ∧ (1790086400000000000 : Int) - 1790000000000000000 ≤ maxDuration ∧
+    (∀ it ∈ demo2026, (1790000000000000000 : Int) ≤ it.env.now ∧ it.env.now ≤ 1790086400000000000 ∧
+      ∀ next ∈ it.env.tok, (1790000000000000000 : Int) ≤ next ∧ next ≤ 1790086400000000000) ∧
+    ((runLoopWith satSub .fresh true Waiter.init demo2026).1.map Ev.isShoot) = [true, true, true, false, true] := by decide
+
+/-- `C04_pool_run_bounded`: `pdemo` (tokens ≤ 0 + 0.2 s, responses ≤ 1 s, ε = 1 ms) meets the hypotheses for instance 1 -/
+example : (∀ t ∈ [(0 : Int), 100000000, 200000000], t ≤ 0 + 200000000) ∧
+    (∀ it ∈ (prun (PState.init [0, 100000000, 200000000]) pdemo).hist 1, it.dur ≤ 1000000000) ∧
+    (∀ it ∈ (prun (PState.init [0, 100000000, 200000000]) pdemo).hist 1, ∀ next ∈ it.env.tok,
+      it.env.ret ≤ max it.env.pick next + 1000000) ∧
+    (∀ it ∈ (prun (PState.init [0, 100000000, 200000000]) pdemo).hist 1, it.ctxDoneSlow = false) ∧
+    ClockOK Waiter.init ((prun (PState.init [0, 100000000, 200000000]) pdemo).hist 1) ∧
+    ReadAfterPick ((prun (PState.init [0, 100000000, 200000000]) pdemo).hist 1) ∧
+    (poolEvents .fresh true [0, 100000000, 200000000] pdemo 1).map Ev.isShoot = [true] := by decide
+
+/-- `C04_cached_reading_is_an_optimisation`: a stale and a fresh cached reading, a token 2.5 s late -/
+example : (waitV .fresh { lastNow := 0, overdue := 7 } { tok := some 500000000, now := 3000000000, arm := 3000000000, ret := 3000000000 }).w =
+    (waitV .fresh { lastNow := 2999999999, overdue := 0 } { tok := some 500000000, now := 3000000000, arm := 3000000000, ret := 3000000000 }).w := by
+  decide
 
 end Pandora.Props.C04
